@@ -425,6 +425,24 @@ def _filter_builder_ok(mk: ast.FunctionDef):
     return True, "every (string, extractor) item is grouped by string and stored as the automaton value of that string"
 
 
+def rule_only_selection_is_overridden(ctx: Ctx):
+    """R-C13-9: the filtered tokenizer differs from the reference tokenizer in *which extractors run*, nothing else.  The class may
+    override get_extractors (and set itself up in __post_init__); overriding extract_tokens / tokenize / append_text -- e.g. to run an
+    extractor only on the lines that contain its filter string -- restricts *where* a selected extractor may match, which the inclusion
+    argument (a match contains a filter string) does not cover."""
+    repo = ctx.repo
+    tm = repo.mod("tokenizers")
+    ci = repo.classes.get("AhocorasickTokenizer")
+    base = repo.classes.get("Tokenizer")
+    if ci is None or base is None:
+        ctx.ob("R-C13-9", "tokenizers.AhocorasickTokenizer/located", False, "class not found", node=None, mod=tm)
+        return
+    overridden = sorted(m_ for m_ in ci.methods if m_ in base.methods and m_ not in ("get_extractors", "__post_init__"))
+    ctx.ob("R-C13-9", "tokenizers.AhocorasickTokenizer/overrides", not overridden,
+           f"the filtered tokenizer overrides only get_extractors of the reference tokenizer (also overridden: {overridden}): the same extractors' matches over "
+           "the whole text, merged by the same tokenize()", node=ci.methods[overridden[0]] if overridden else ci.node, mod=tm)
+
+
 def run(ctx: Ctx):
     ctx.level = "proof"
     ctx.explanation = (
@@ -449,6 +467,7 @@ def run(ctx: Ctx):
         "the extractor table is the one eyecite.tokenizers builds at import from the installed reporters-db (materialised by importing it; no pattern is matched against text)",
     ]
     info = ctx.guard(structural_rules, ctx) or {}
+    ctx.guard(rule_only_selection_is_overridden, ctx)
     ctx.extra["case_insensitive_filter_ascii_only"] = bool(info.get("icase_ascii_only"))
     data = materialize.load(ctx.repo.root)
     exts = data["extractors"]
